@@ -356,6 +356,9 @@ TRUSTED_BASE = [
     'extraction: ExtrOcamlBasic only (bool, option, unit, list, prod, sumbool as OCaml natives); no Extract Constant',
     'OCaml 4.13.1 driver (driver/main.ml), Rust harness (harness/), Python generators and comparators (tools/)',
     'rustc/std (Vec, BTreeMap, BinaryHeap, sort_by stability), serde/serde_json: modelled, not verified',
+    'harness/src/state.rs (structure-preserving serde Serializer used for the state tie), harness/src/span.rs (user-defined dense region)',
+    'Section hypotheses only: std Vec growth contract (Resource/Alloc.v), inner byte region total (codec_region_ok); Huffman code lengths '
+    '<= 57 is the mergeable premise, proved for statistics below 1 548 008 755 920 counted symbols',
 ]
 
 # ------------------------------------------------------------------------------- evidence
